@@ -171,14 +171,21 @@ add("crc_native", "adsb_deku", L + "obl_crc_native", props=["C03-native"], stubs
     domain="native search / replay only", functions=["crc::modes_checksum"])
 
 V = "crate::verif_obl_vel::"
+VEL_STUBS = ["libm::atan2 => crate::verif_obl_vel::atan2_stub", "libm::hypot => crate::verif_obl_vel::hypot_stub"]
 for _st in range(8):
-    for _part in ((0, 1) if _st in (1, 2) else (0,)):
-        add("vel_calc_st%d_p%d" % (_st, _part), "adsb_deku", V + "obl_velocity_calc", args="%d, %d" % (_st, _part), props=["C07", "C01"],
-            stubs=["libm::atan2 => crate::verif_obl_vel::atan2_stub", "libm::hypot => crate::verif_obl_vel::hypot_stub"],
-            tier="quick" if _st in (0, 1, 2, 3) else "thorough", timeout=800,
-            domain=("subtype %d x all 2^22 velocity words x all 2^10 vertical-rate codes (ghost atan2 / hypot results fixed)" % _st) if _part == 0 else
-                   ("subtype %d, one velocity word, atan2 / hypot results arbitrary within the stated envelope" % _st),
-            functions=["adsb::AirborneVelocity::calculate", "Sign::value"])
+    add("vel_calc_st%d_p0" % _st, "adsb_deku", V + "obl_velocity_calc", args="%d, 0" % _st, props=["C07", "C01"], stubs=VEL_STUBS,
+        tier="quick" if _st in (0, 1, 2, 3) else "thorough", timeout=600,
+        domain="subtype %d x all 2^22 velocity words x all 2^10 vertical-rate codes (ghost atan2 / hypot results fixed)" % _st,
+        functions=["adsb::AirborneVelocity::calculate", "Sign::value"])
+    if _st in (1, 2):
+        add("vel_calc_st%d_p1" % _st, "adsb_deku", V + "obl_velocity_calc", args="%d, 1" % _st, props=["C07", "C01"], stubs=VEL_STUBS, tier="thorough", timeout=2400,
+            domain="subtype %d, one (westward) velocity word, atan2 / hypot results arbitrary within the stated envelope" % _st,
+            functions=["adsb::AirborneVelocity::calculate"])
+        for _k in range(8):
+            add("vel_calc_st%d_s%d" % (_st, _k), "adsb_deku", V + "obl_velocity_calc", args="%d, %d" % (_st, 10 + _k), props=["C07"], stubs=VEL_STUBS,
+                tier="quick" if (_st == 1 or _k in (0, 3)) else "thorough", timeout=600,
+                bounded="ghost atan2 result = sample %d of 8 concrete values (negative half plane, where the +360 wrap applies)" % _k,
+                domain="subtype %d, one (westward) velocity word, one concrete atan2 result" % _st, functions=["adsb::AirborneVelocity::calculate"])
 
 P = "crate::cpr::verif_cpr::"
 PM_STUB = "crate::cpr::positive_mod => crate::cpr::verif_cpr::positive_mod_contract"
@@ -280,7 +287,7 @@ C01_QUICK = {"leaf_decode_id13", "leaf_mode_a_to_mode_c", "leaf_ac13_read", "lea
              "df00_b0_02", "df04_b0_20", "df05_b0_28", "df11_b0_5d", "df16_b0_80", "df19_b0_98", "df24_b0_c5", "df23_rej_b8",
              "df17_ca5_mec0", "df17_ca5_me58", "df17_ca5_me00", "df18_cf0_me58", "df20_mb00", "df21_mb30",
              "fc_df11_07", "fc_df11_32", "fc_df17_14", "fc_df19_32", "fc_df24_14",
-             "vel_calc_st1_p0", "vel_calc_st3_p0", "cpr_nl", "rd_single_df11",
+             "vel_calc_st1_p0", "vel_calc_st3_p0", "vel_calc_st1_s0", "cpr_nl", "rd_single_df11",
              "trk_entry_m0_k0", "trk_ident_df17", "trk_vel_df17", "trk_details", "trk_non_es_df11", "trk_non_es_df24",
              "trk_other0_df17", "trk_pos_df17_trackf_inv"}
 
